@@ -35,13 +35,15 @@ LEAN = dict(
     props="LeaspyVerif.Props.C15",
     driver="drivers/C15.lean",
     harness="c15_dag.py",
-    extra_modules=["LeaspyVerif.Model.Dag"],
+    extra_modules=["LeaspyVerif.Model.Dag", "LeaspyVerif.Model.Specs"],
     theorems=["order_topological", "order_perm_nodes", "children_exact", "ancestors_exact",
               "children_in_order", "ancestors_in_order", "accepts_iff", "refused_input_iff", "refused_value_iff",
               "loop_terminates", "deterministic",
               "order_nodup", "children_ancestors_nodup", "children_ancestors_dual", "not_self_dependent",
               "children_transitive", "direct_dependency_reported", "children_after_ancestors_before",
-              "first_is_root_last_is_leaf", "children_ancestors_unique"],
+              "first_is_root_last_is_leaf", "children_ancestors_unique",
+              "collection_keys_unique", "collection_refused_name_no_effect", "collection_definitions_never_rewritten",
+              "collection_sum_exact", "collection_registers_ind", "collection_ind_chain", "collection_later_ind_var_counted"],
     trusted_extra=["python string ordering of node names = rank used by the model (names are ranked by the harness with python's sorted())"],
     assumptions=["direct ancestors are sets (frozenset in the code): the harness sends de-duplicated ancestor lists"],
 )
@@ -602,6 +604,108 @@ def collection_case(chk, env, defs, how, cut, expect=None):
     return names, anc
 
 
+# ----------------------------------------------------------------- the collection model (`Model/Specs.lean`, request `coll`)
+def _enc(name):
+    return ".".join(str(ord(c)) for c in name)
+
+
+def _op_token(name, d):
+    if d[0] == "data":
+        return f"{_enc(name)}~p"
+    if d[0] == "link":
+        return "~".join([_enc(name), "l"] + [_enc(x) for x in d[1:]])
+    return "~".join([_enc(name), "i" if d[0] == "ind" else "o", _enc(d[1]), _enc(d[2])])
+
+
+def statement_history(rng):
+    """`nv[name] = var` statements: a valid collection with, at random places, statements the collection must refuse - reserved
+    words, automatic names, names in use, and latent variables one of whose implicit companions cannot be added (the name
+    `nll_regul_<z>` taken by an explicit definition, or falling on an automatic name): the refusal then comes AFTER the
+    variable itself (and possibly its first companion) went in."""
+    ops = list(synthetic_collection(rng))
+    lat = [n for n, d in ops if d[0] in ("ind", "pop")]
+    extra = []
+    for _ in range(rng.randrange(0, 5)):
+        k = rng.randrange(7)
+        if k == 0:
+            extra.append((rng.choice(["state", "sum", "all", "pop", "ind", "tot", "full", "nll", "attach", "regul", "suff_stats"]), ("data",)))
+        elif k == 1:
+            extra.append((rng.choice(["nll_regul_ind_sum", "nll_regul_ind_sum_ind"]), ("data",)))
+        elif k == 2:
+            extra.append((rng.choice(ops)[0], rng.choice([("data",), ("ind", "m0", "s0"), ("link", "m0")])))
+        elif k == 3 and lat:          # a companion name taken beforehand by an explicit definition
+            z = rng.choice(lat)
+            extra.append(("front", (rng.choice([f"nll_regul_{z}", f"nll_regul_{z}_ind"]), ("data",))))
+        elif k == 4:
+            extra.append((rng.choice(["ind_sum", "ind_sum_ind"]), (rng.choice(["ind", "pop"]), "m0", "s0")))
+        elif k == 5:
+            extra.append((rng.choice(["State", "sum ", "nll_regul", "nll_regul_ind_sum_", "m0", "s0"]), ("data",)))
+        else:
+            z = rng.choice(lat) if lat else "q"
+            extra.append((f"nll_regul_{z}", ("data",)))      # after (refused: in use) or before (taken) the latent variable
+    for e in extra:
+        if e[0] == "front":
+            ops.insert(rng.randrange(0, max(1, len(ops) // 2)), e[1])
+        else:
+            ops.insert(rng.randrange(0, len(ops) + 1), e)
+    return ops
+
+
+def statements_case(chk, env, ops):
+    """The statements on a real `NamedVariables`; returns (request line, canonical observation) or None."""
+    from leaspy.variables.specs import NamedVariables
+    case = {"statements": [[n, list(d)] for n, d in ops]}
+    try:
+        nv = NamedVariables()
+        oks = []
+        for n, d in ops:
+            try:
+                nv[n] = build_spec(d)
+                oks.append(True)
+            except ValueError:
+                oks.append(False)
+            if zlib.crc32(repr((n, len(oks))).encode()) % 3 == 0:     # reads in between are not part of the state of a collection
+                _ = dict(nv), len(nv), [nv[k].get_ancestors_names() for k in nv], nv["nll_regul_ind_sum_ind"]
+        keys = list(nv)
+        defs = [(k, sorted(nv[k].get_ancestors_names())) for k in keys]
+        if len(nv) != len(keys) or list(nv.keys()) != keys or [k for k, _ in nv.items()] != keys:
+            chk.impl_failure(case, f"the views of the collection disagree: len {len(nv)}, iteration {len(keys)} names, keys() {len(list(nv.keys()))}")
+    except Exception as e:  # noqa
+        chk.impl_failure(case, f"assignment statements on a collection end with {type(e).__name__}: {str(e)[:140]}")
+        return None
+    # the property's clause, independently of the model: every statement that went through as an individual latent variable is
+    # counted by the summary node, which depends on nothing else; no name twice
+    ind_ok = sorted({n for (n, d), ok in zip(ops, oks) if ok and d[0] == "ind"})
+    got_sum = dict(defs).get("nll_regul_ind_sum_ind")
+    if got_sum != sorted(f"nll_regul_{z}_ind" for z in ind_ok):
+        chk.impl_failure(case, f"nll_regul_ind_sum_ind depends on {got_sum}, the individual latent variables assigned successfully are {ind_ok}")
+    if len(set(keys)) != len(keys):
+        chk.impl_failure(case, f"a name is listed twice: {[k for k in keys if keys.count(k) > 1][:3]}")
+    line = "coll ops=" + ("|".join(_op_token(n, d) for n, d in ops) or "-")
+    fmt = lambda l: ",".join(l) if l else "_"  # noqa
+    obs = (f"ok={fmt(['1' if o else '0' for o in oks])} keys={fmt([_enc(k) for k in keys])} "
+           f"defs={';'.join(_enc(k) + ':' + fmt([_enc(a) for a in deps]) for k, deps in defs)}")
+    case["refused"] = oks.count(False)
+    return line, obs, case
+
+
+def statements_part(chk, env, n):
+    lines, obs, cases = [], [], []
+    for _ in range(n):
+        ops = statement_history(chk.rng)
+        r = statements_case(chk, env, ops)
+        chk.case(("statements", repr(ops)), nontrivial=True, tags={"part": "collection-statements"})
+        if r is not None:
+            lines.append(r[0]); obs.append(r[1]); cases.append(r[2])
+            chk.tag("collection-statements", "refused=" + str(min(r[2]["refused"], 3)))
+    out = chk.model(lines)
+    for cj, a, b in zip(cases, obs, out):
+        if a != b:
+            A, B = a.split(" "), b.split(" ")
+            what = next((x.split("=")[0] for x, y in zip(A, B) if x != y), "?")
+            chk.disagree(cj, a, b, f"collection after the statements ({what})")
+
+
 def expected_collection(defs):
     expect = {}
     ind = []
@@ -1078,6 +1182,7 @@ def run(chk: core.Check):
         chk.case(("collection", repr(defs), how, cut), nontrivial=True, tags={"part": "collection", "assembled": how})
         if g is not None:
             cases.append((g[0], g[1], "collection-" + how))
+    statements_part(chk, env, 150 if thorough else 40)
     for stem, names, anc, dag in loaded_model_graphs(chk):
         cases.append((names, anc, f"loaded-{stem}"))
         for f in predicate(names, anc, tables(dag, names))[0][:2] + view_failures(dag, names, anc, dag.variables)[:2]:
@@ -1171,6 +1276,15 @@ def replay(chk: core.Check, payload):
     case = payload.get("case") or (payload.get("disagreements") or [{}])[0].get("case")
     if case and "instalments" in case:
         incremental_definitions(chk, only=(case["model"], case["kw"], case["instalments"][0]))
+        return
+    if case and "statements" in case:
+        ops = [(n, tuple(d)) for n, d in case["statements"]]
+        r = statements_case(chk, env, ops)
+        chk.case(("statements", repr(ops)), sample=case)
+        if r is not None:
+            out = chk.model([r[0]])
+            if out[0] != r[1]:
+                chk.disagree(case, r[1], out[0], "collection after the statements")
         return
     if case and "collection" in case:
         defs = [(n, tuple(d)) for n, d in case["collection"]]
